@@ -1421,19 +1421,34 @@ func (c *Conn) writeRequest(ctx *Ctx) error {
 
 // applyInitialWindow adjusts every stream we are still sending on by the change
 // in SETTINGS_INITIAL_WINDOW_SIZE.
-func (c *Conn) applyInitialWindow(size int32) {
+//
+// A change that takes the window of a stream past 2^31-1 is a connection error
+// (RFC 7540 6.9.2). Nothing is changed then: the window would wrap around to a
+// negative value, and the body on that stream would wait for ever.
+func (c *Conn) applyInitialWindow(size int32) error {
 	c.sendLck.Lock()
 
-	delta := size - c.streamWindow
+	delta := int64(size) - int64(c.streamWindow)
+
+	for _, pb := range c.pending {
+		if int64(pb.window)+delta > 1<<31-1 {
+			c.sendLck.Unlock()
+
+			return NewGoAwayError(FlowControlError, "SETTINGS_INITIAL_WINDOW_SIZE takes a stream window past 2^31-1")
+		}
+	}
+
 	c.streamWindow = size
 
 	for _, pb := range c.pending {
-		pb.window += delta
+		pb.window += int32(delta)
 	}
 
 	c.sendLck.Unlock()
 
 	c.signalWindow()
+
+	return nil
 }
 
 // addWindow grows a send window. Stream 0 is the connection window.
@@ -1851,7 +1866,7 @@ loop:
 					break
 				}
 
-				c.handleSettings(st)
+				err = c.handleSettings(st)
 			}
 		case FrameWindowUpdate:
 			c.addWindow(0, int32(fr.Body().(*WindowUpdate).Increment()))
@@ -1924,7 +1939,7 @@ func (c *Conn) writePing() error {
 	return err
 }
 
-func (c *Conn) handleSettings(st *Settings) {
+func (c *Conn) handleSettings(st *Settings) error {
 	// Only what the frame carries changes; the rest stays as the server left
 	// it (RFC 7540 6.5.3).
 	st.applyTo(&c.serverS)
@@ -1950,7 +1965,10 @@ func (c *Conn) handleSettings(st *Settings) {
 	// already open, as a delta on what it has left.
 	// https://httpwg.org/specs/rfc7540.html#rfc.section.6.9.2
 	if st.hasWindowSize {
-		c.applyInitialWindow(int32(st.MaxWindowSize()))
+		if err := c.applyInitialWindow(int32(st.MaxWindowSize())); err != nil {
+			// Not acknowledged: the frame is the end of the connection.
+			return err
+		}
 	}
 
 	// reply back
@@ -1962,6 +1980,8 @@ func (c *Conn) handleSettings(st *Settings) {
 	fr.SetBody(stRes)
 
 	c.writeOut(fr)
+
+	return nil
 }
 
 func (c *Conn) handlePing(ping *Ping) {
